@@ -464,7 +464,8 @@ func match(pattern ast.Atom, subst *unionfind.UnionFind) (bool, *unionfind.Union
 		if !ok || name.Type != ast.NameType {
 			return false, nil, nil
 		}
-		return strings.HasPrefix(name.Symbol, pat.Symbol) && len(name.Symbol) > len(pat.Symbol), subst, nil
+		// The prefix must end at a name part boundary: /foobar/x is not below /foo.
+		return strings.HasPrefix(name.Symbol, pat.Symbol+"/"), subst, nil
 
 	case symbols.StartsWith.Symbol:
 		if len(pattern.Args) != 2 {
